@@ -185,8 +185,13 @@ def bind_stages(run, pid, only):
     if run.quick:
         run.gen_replay("Gen_Bind", gen_cfg(dict(Scope="fields", MaxFields=2, Small=True), invariants=inv), ["replay-bind", "--only", only], pid + ":fields")
     else:
-        run.gen_replay("Gen_Bind", gen_cfg(dict(Scope="fields", MaxFields=2, Small=False), invariants=inv), ["replay-bind", "--only", only], pid + ":fields")
-        run.gen_replay("Gen_Bind", gen_cfg(dict(Scope="fields", MaxFields=3, Small=True), invariants=inv), ["replay-bind", "--only", only], pid + ":fields3")
+        # thorough: the quick scope in full, then the full key / value pools and descriptors of three fields as seeded samples (the
+        # exhaustive products are in the tens of millions and do not finish)
+        run.gen_replay("Gen_Bind", gen_cfg(dict(Scope="fields", MaxFields=2, Small=True), invariants=inv), ["replay-bind", "--only", only], pid + ":fields")
+        run.gen_replay("Gen_Bind", gen_cfg(dict(Scope="fields", MaxFields=2, Small=False), invariants=inv), ["replay-bind", "--only", only], pid + ":fields-full",
+                       simulate=10 ** 9, depth=8, workers=1, max_cases=1500000, timeout=2400)
+        run.gen_replay("Gen_Bind", gen_cfg(dict(Scope="fields", MaxFields=3, Small=True), invariants=inv), ["replay-bind", "--only", only], pid + ":fields3",
+                       simulate=10 ** 9, depth=8, workers=1, max_cases=1500000, timeout=2400)
     run.gen_replay("Gen_Bind", gen_cfg(dict(Scope="targets", MaxFields=2, Small=True)), ["replay-bind", "--only", only], pid + ":targets")
     if only == "c05":
         # many blocks: 1..300 named blocks with int/string/bool/float fields bound to a slice (all) or a struct (last), value in closed form
